@@ -14,7 +14,8 @@ is not ahead of the node, and — the leader's own acknowledgement of the curren
 node that still leads -/
 def SelfOK (n : Nat) (r : Raft) (m : Message) : Prop :=
   m.to = n → (m.typ = .voteResp ∨ m.typ = .appResp) ∧ m.reject = false ∧ m.from = n ∧ m.term ≤ r.term ∧
-    (m.typ = .appResp → m.term = r.term → r.state = .leader ∧ m.index ≤ r.log.lastIndex)
+    (m.typ = .appResp → m.term = r.term →
+      r.state = .follower ∨ (r.state = .leader ∧ m.index ≤ r.log.lastIndex))
 
 /-- the auxiliary invariant of node `n` -/
 structure AuxInv (n : Nat) (r : Raft) : Prop where
@@ -23,19 +24,29 @@ structure AuxInv (n : Nat) (r : Raft) : Prop where
   /-- appends, heartbeats and vote requests are sent by the node to others -/
   outFrom : ∀ m ∈ r.msgs, m.typ = .app ∨ m.typ = .heartbeat ∨ m.typ = .vote → m.from = n ∧ m.to ≠ n
 
+/-- default proof of `AuxFrame.fol` from the context -/
+macro "aux_fol" : tactic =>
+  `(tactic| (intro hfolT hfolS; first | exact hfolS | (simp_all; done) | (exfalso; simp_all; done) | (exfalso; omega)))
+
 /-- what every step guarantees about term, leadership and the end of the log -/
 structure AuxFrame (r r' : Raft) : Prop where
   term : r.term ≤ r'.term
   lead : r'.term = r.term → r.state = .leader → r'.state = .leader ∧ r.log.lastIndex ≤ r'.log.lastIndex
+  /-- within a term a follower stays a follower (so an acknowledgement of a leader that stepped down in its own term
+  — CheckQuorum — is never counted) -/
+  fol : r'.term = r.term → r.state = .follower → r'.state = .follower := by aux_fol
 
-theorem AuxFrame.refl (r : Raft) : AuxFrame r r := ⟨Nat.le_refl _, fun _ h => ⟨h, Nat.le_refl _⟩⟩
+theorem AuxFrame.refl (r : Raft) : AuxFrame r r := ⟨Nat.le_refl _, fun _ h => ⟨h, Nat.le_refl _⟩, fun _ h => h⟩
 
 theorem AuxFrame.trans {a b c : Raft} (h1 : AuxFrame a b) (h2 : AuxFrame b c) : AuxFrame a c := by
-  refine ⟨Nat.le_trans h1.term h2.term, fun ht hl => ?_⟩
-  have hab : b.term = a.term := Nat.le_antisymm (ht ▸ h2.term) h1.term
-  obtain ⟨hb, hle⟩ := h1.lead hab hl
-  obtain ⟨hc, hle'⟩ := h2.lead (ht.trans hab.symm) hb
-  exact ⟨hc, Nat.le_trans hle hle'⟩
+  refine ⟨Nat.le_trans h1.term h2.term, fun ht hl => ?_, ?_⟩
+  · have hab : b.term = a.term := Nat.le_antisymm (ht ▸ h2.term) h1.term
+    obtain ⟨hb, hle⟩ := h1.lead hab hl
+    obtain ⟨hc, hle'⟩ := h2.lead (ht.trans hab.symm) hb
+    · exact ⟨hc, Nat.le_trans hle hle'⟩
+  · intro ht hf
+    have hab : b.term = a.term := Nat.le_antisymm (ht ▸ h2.term) h1.term
+    exact h2.fol (ht.trans hab.symm) (h1.fol hab hf)
 
 /-- a pending self-addressed promise stays fine across a step -/
 theorem SelfOK.frame {n : Nat} {r r' : Raft} {m : Message} (h : SelfOK n r m) (hf : AuxFrame r r') :
@@ -44,8 +55,9 @@ theorem SelfOK.frame {n : Nat} {r r' : Raft} {m : Message} (h : SelfOK n r m) (h
   obtain ⟨h1, h2, h3, h4, h5⟩ := h hto
   refine ⟨h1, h2, h3, Nat.le_trans h4 hf.term, fun ha ht => ?_⟩
   have hterm : r'.term = r.term := Nat.le_antisymm (ht ▸ h4) hf.term
-  obtain ⟨hl, hi⟩ := h5 ha (ht.trans hterm)
-  obtain ⟨hl', hle⟩ := hf.lead hterm hl
-  exact ⟨hl', Nat.le_trans hi hle⟩
+  rcases h5 ha (ht.trans hterm) with hfo | ⟨hl, hi⟩
+  · exact Or.inl (hf.fol hterm hfo)
+  · obtain ⟨hl', hle⟩ := hf.lead hterm hl
+    exact Or.inr ⟨hl', Nat.le_trans hi hle⟩
 
 end RaftVerif.Sim
